@@ -4,6 +4,7 @@ package main
 
 import (
 	"bytes"
+	"context"
 	"encoding/base64"
 	"fmt"
 	"os"
@@ -15,8 +16,10 @@ import (
 	"time"
 
 	"github.com/mimecast/dtail/internal/config"
+	"github.com/mimecast/dtail/internal/io/line"
 	"github.com/mimecast/dtail/internal/mapr"
 	maprclient "github.com/mimecast/dtail/internal/mapr/client"
+	maprserver "github.com/mimecast/dtail/internal/mapr/server"
 	serverHandlers "github.com/mimecast/dtail/internal/server/handlers"
 	user "github.com/mimecast/dtail/internal/user/server"
 )
@@ -319,4 +322,79 @@ func (s *c06Session) report() string {
 		res = "empty"
 	}
 	return fmt.Sprintf("%s;closed=%v", res, s.sawSyn)
+}
+
+func init() {
+	// c06.queue <nsmall> <slowlines>: the real server-side Aggregate with the harness acting as the file
+	// readers exactly as readCommand.read() does (make a line channel, register it through NextLinesCh —
+	// which blocks while the queue is full —, write the lines, close).  One file is still being read when
+	// the aggregator starts (registered first, open, empty); nsmall one-line files follow, those that do
+	// not fit into the queue wait.  Once all are registered the slow file delivers its lines and ends.
+	ops["c06.queue"] = func(a []string) string {
+		nsmall, slowLines := atoi(a[0]), atoi(a[1])
+		config.Server.MapreduceLogFormat = "default"
+		agg, err := maprserver.NewAggregate("select count($line) group by $hostname")
+		if err != nil {
+			panic(err)
+		}
+		newLine := func(s string) *line.Line { return line.New(bytes.NewBufferString(s), 1, 100, "verif") }
+		small := func(i int) chan *line.Line {
+			ch := make(chan *line.Line, 100)
+			ch <- newLine(fmt.Sprintf("small file %d", i))
+			close(ch)
+			return ch
+		}
+		slow := make(chan *line.Line, 100)
+		agg.NextLinesCh <- slow
+		i := 1
+		for ; i <= nsmall && len(agg.NextLinesCh) < cap(agg.NextLinesCh); i++ {
+			agg.NextLinesCh <- small(i)
+		}
+		var registered sync.WaitGroup
+		for ; i <= nsmall; i++ {
+			registered.Add(1)
+			go func(i int) {
+				defer registered.Done()
+				agg.NextLinesCh <- small(i)
+			}(i)
+		}
+		time.Sleep(100 * time.Millisecond) // the late readers now wait for room in the queue
+		ctx, cancel := context.WithCancel(context.Background())
+		defer cancel()
+		messages := make(chan string, 100000)
+		finished := make(chan struct{})
+		go func() {
+			agg.Start(ctx, messages)
+			close(finished)
+		}()
+		go func() {
+			registered.Wait()
+			for k := 0; k < slowLines; k++ {
+				slow <- newLine(fmt.Sprintf("slow file line %d", k))
+			}
+			close(slow)
+		}()
+		// the aggregator sleeps 100 ms whenever a channel has nothing for it
+		deadline := time.Duration(nsmall+slowLines+10)*250*time.Millisecond + 5*time.Second
+		state := "terminated"
+		select {
+		case <-finished:
+		case <-time.After(deadline):
+			state = "stuck"
+		}
+		total := 0
+		for {
+			select {
+			case m := <-messages:
+				parts := strings.Split(m, "∥")
+				if len(parts) >= 2 {
+					total += atoi(parts[1])
+				}
+				continue
+			default:
+			}
+			break
+		}
+		return fmt.Sprintf("%s;count=%d", state, total)
+	}
 }
